@@ -316,6 +316,78 @@ def cases(tier: str, rng: random.Random):  # noqa: ANN201
         yield {"disposables": [[rng.choice(ENTERS), rng.choice(EXITS), rng.choice(ys)] for _ in range(n)], "body": rng.choice(BODIES)}
 
 
+def run_shared_disposables(R: Recorder, case: dict[str, Any]) -> None:
+    """ONE prepared `Disposables(...)` object (re-entrant, reference-counted resources) handed to two scopes that are open at the same
+    time - nested in one task, or in two tasks: every scope enters every resource once and exits it once, with its own body's outcome"""
+    from haiway import Disposables, State, ctx
+
+    class Handle(State):
+        name: str = "handle"
+
+    class Shared:
+        def __init__(self, name: str) -> None:
+            self.name, self.entered, self.exits = name, 0, []
+
+        async def __aenter__(self) -> Any:
+            self.entered += 1
+            await asyncio.sleep(0)
+            return Handle(name=self.name)
+
+        async def __aexit__(self, et: Any, ev: Any, tb: Any) -> None:
+            await asyncio.sleep(0)
+            self.exits.append(ev)
+
+    class Own(Exception):
+        pass
+
+    resources = [Shared("a"), Shared("b")]
+    shared = Disposables(*resources)
+    raised: dict[str, BaseException | None] = {"first": None, "second": Own("second") if case["second_raises"] else None}
+    notes: dict[str, Any] = {}
+
+    async def second(started: asyncio.Event | None, release: asyncio.Event | None) -> None:
+        try:
+            async with ctx.scope("second", disposables=shared):
+                notes["second_state"] = ctx.state(Handle).name
+                if started is not None and release is not None:
+                    started.set()
+                    await release.wait()
+                if raised["second"] is not None:
+                    raise raised["second"]
+        except Own:
+            pass
+
+    async def main(loop: Any) -> None:
+        if case["shape"] == "nested":
+            async with ctx.scope("first", disposables=shared):
+                await second(None, None)  # entered and left while the first one is open: the first one exits last
+                notes["entered_while_both_open"] = [r.entered for r in resources]
+        else:
+            started, release = asyncio.Event(), asyncio.Event()
+            async with ctx.scope("first", disposables=shared):
+                t = asyncio.get_running_loop().create_task(second(started, release))
+                await started.wait()
+                notes["entered_while_both_open"] = [r.entered for r in resources]
+            # the first scope was left first; the second one is still open and is left afterwards
+            release.set()
+            await t
+
+    status, value, loop = run_virtual(main, max_iterations=20000)
+    R.case(case, nontrivial=True)
+    R.count("prepared_disposables_shared_by_overlapping_scopes")
+    w0 = {"shared_disposables": case["shape"], "body": "raise-exc" if case["second_raises"] else "return"}
+    if status != "ok":
+        R.monitor("terminates", False, where={**w0, "kind": status}, detail=f"run ended {status}: {value!r}", case=case)
+        return
+    R.monitor("terminates", True)
+    for r in resources:
+        R.monitor("enter-once", r.entered == 2, where={**w0, "kind": "enter-count"}, detail=f"resource {r.name} shared by two overlapping scopes was entered {r.entered} times", case=case)
+        R.monitor("exit-once", len(r.exits) == 2, where={**w0, "kind": "entered-not-exited" if len(r.exits) < 2 else "exited-twice"}, detail=f"resource {r.name} was entered {r.entered} times and exited {len(r.exits)} times (exit details {r.exits!r})", case=case)
+        if len(r.exits) == 2:
+            want = {id(None), id(raised["second"])}
+            R.monitor("exit-args", {id(x) for x in r.exits} == want, where={**w0, "kind": "wrong-exit-args"}, detail=f"resource {r.name}: exits received {r.exits!r}; the bodies ended with None and {raised['second']!r}", case=case)
+
+
 INJECTED_PROGRAMS: list[list[list[str]]] = [
     # [enter, exit] per disposable: resources that enter (and whose cleanup may suspend) next to one that fails to enter or is slow to enter
     [["ok", "gate"], ["gate-raise", "ok"]], [["ok", "ok"], ["gate-raise", "ok"]], [["gate", "gate"], ["gate-raise", "ok"], ["ok", "ok"]], [["ok", "gate"], ["raise", "ok"]],
@@ -372,6 +444,8 @@ def injected(R: Recorder, tier: str) -> None:
 def run(R: Recorder, tier: str, seed: int, shard: int, nshards: int) -> None:
     if shard == 0:
         injected(R, tier)
+        for shape, second_raises in itertools.product(("nested", "concurrent"), (False, True)):
+            run_shared_disposables(R, {"shared": True, "shape": shape, "second_raises": second_raises})
     R.flags["exhaustive_core"] = f"full enter x exit product for <= {2 if tier == 'quick' else 3} disposables x body outcomes x all completion orders"
     rng_cases = random.Random(f"C08/{seed}")
     rng = random.Random(f"C08/{seed}/{shard}")
@@ -381,6 +455,9 @@ def run(R: Recorder, tier: str, seed: int, shard: int, nshards: int) -> None:
 
 
 def replay(R: Recorder, rec: dict[str, Any]) -> None:
+    if rec.get("shared"):
+        run_shared_disposables(R, rec)
+        return
     if "injected" in rec:
         injected(R, "quick")
         return
